@@ -1,17 +1,19 @@
 ID = "C20"
 LEVEL = "model_checking"
-TECHNIQUE = ("CBMC bounded symbolic execution of the real bufferevent.c/bufferevent_sock.c/bufferevent_pair.c timeout bookkeeping: one operation from a "
+TECHNIQUE = ("CBMC bounded symbolic execution of the real bufferevent.c/bufferevent_sock.c/bufferevent_pair.c/bufferevent_filter.c timeout bookkeeping: one operation from a "
              "solver-chosen state built through the API, timeout invariant asserted before and after; evbuffers = contract sink, events = recording stubs")
-UNITS = ["bufferevent.c", "bufferevent_sock.c", "bufferevent_pair.c", "bufferevent-internal.h"]
+UNITS = ["bufferevent.c", "bufferevent_sock.c", "bufferevent_pair.c", "bufferevent_filter.c", "bufferevent-internal.h"]
 FUNCTIONS = ["bufferevent_set_timeouts", "bufferevent_generic_adj_timeouts_", "bufferevent_generic_adj_existing_timeouts_", "bufferevent_add_event_",
              "bufferevent_enable", "bufferevent_disable", "bufferevent_suspend_read_", "bufferevent_unsuspend_read_", "bufferevent_suspend_write_",
              "bufferevent_unsuspend_write_", "be_socket_enable", "be_socket_disable", "bufferevent_socket_outbuf_cb", "bufferevent_readcb", "bufferevent_writecb",
              "bufferevent_generic_read_timeout_cb", "bufferevent_generic_write_timeout_cb", "be_pair_enable", "be_pair_disable", "be_pair_transfer",
-             "be_pair_outbuf_cb", "be_pair_flush"]
+             "be_pair_outbuf_cb", "be_pair_flush", "be_filter_enable", "be_filter_disable", "be_filter_process_input", "be_filter_process_output",
+             "bufferevent_filtered_outbuf_cb", "be_filter_readcb", "be_filter_writecb", "be_filter_flush"]
 BOUNDS = ("state: read/write timeouts (unset or any tv_sec<=10^6, tv_usec<10^6), enabled bits, bandwidth suspension per direction, output length (any), pairs: both ends, "
-          "optionally read high-water marks; then ONE operation out of {enable R/W, disable R/W, set_timeouts, suspend, unsuspend, write, partner write, read event, "
-          "write event, read+timeout event, read timeout, write timeout, flush} with symbolic arguments")
-OUT = ("filter bufferevents (bufferevent_filter.c: be_filter_enable arms the write timeout without looking at the output; not encoded, see report); TLS bufferevents; "
+          "optionally read high-water marks; filters: over a socket bufferevent, optionally output held back; then ONE operation out of {enable R/W, disable R/W, "
+          "set_timeouts, suspend, unsuspend, write, partner write / data arrives / underlying drained, read event, write event, read+timeout event, read timeout, "
+          "write timeout, flush} with symbolic arguments")
+OUT = ("TLS bufferevents; filters: pass-through harness filter only, <= 2 filter calls per step, lengths <= 0xffff; "
        "the event core itself (C01: a timer fires exactly when its duration elapsed since it was last added; persistent I/O events restart their timeout when they fire) -- "
        "the composition over long histories is by induction over the checked invariant; rate-limit suspension uses the same suspend/unsuspend entry points (C22); "
        "socket bufferevents in the 'connecting' state")
@@ -20,7 +22,7 @@ TEXT = ("After every operation: read timer pending <=> reading enabled && not su
         "receiver's read interval and the sender's write interval; a timeout event is reported as TIMEOUT|READING (WRITING) exactly once and disables that direction; "
         "a read/write event that coincides with a timeout counts as a transfer.")
 NOTE = ("Trusted: cbmc, env/evbuf_sink.h, env/bev_env.h (event_add(tv!=NULL) restarts the timer, event_add(NULL) keeps it, event_del cancels), env/locks.h. "
-        "Genuine defects found: fixes/C20-pair-timeouts.{diff,md}; known finding KF-C20-sock-enable-empty (fixes/C20-known-findings.json).")
+        "Genuine defects found: fixes/C20-pair-timeouts.{diff,md}, fixes/C20-filter-timeouts.{diff,md}; known finding KF-C20-sock-enable-empty (fixes/C20-known-findings.json).")
 ASSUMPTIONS = ["evbuffers behave as env/evbuf_sink.h (C12-C16)", "the event core behaves as env/bev_env.h documents (C01/C02)",
                "no rate limit configured; bufferevent not connecting",
                "socket obligations: EV_WRITE is not enabled/un-suspended while the output buffer is empty (KF-C20-sock-enable-empty covers that state)"]
@@ -53,6 +55,16 @@ def obligations(tier):
         if tier == "thorough" or nm in ("write", "partner_write"):
             obs.append(dict(name="pair_wm_" + nm, harness="C20_pair.c", entry="harness_pair_step", defines=["C20_OP=%d" % i, "C20_WITH_OUTPUT", "C20_WM"],
                             unwind=8, unwindset=UW, timeout=900, mem_gb=4, desc="pair, operation %s, output pending, symbolic read high-water marks on both ends" % nm))
+    FILT_OPS = ["enable_r", "disable_r", "set_timeouts", "suspend_r", "unsuspend_r", "data_arrives", "read_timeout", "enable_w", "write", "flush_r",
+                "disable_w", "suspend_w", "unsuspend_w", "write_timeout", "underlying_drained", "flush_w"]
+    quick_fout = {"enable_w", "write", "write_timeout", "underlying_drained", "flush_w", "unsuspend_w", "set_timeouts"}
+    for i, nm in enumerate(FILT_OPS):
+        if nm not in ("write_timeout", "underlying_drained"):     # (need pending output: only the filter_out_ variants are non-vacuous)
+            obs.append(dict(name="filter_" + nm, harness="C20_filter.c", entry="harness_filter_step", defines=["C20_OP=%d" % i, "C20_CHECK_WRITE"], unwind=8, unwindset=UW,
+                            timeout=600, mem_gb=4, desc="filter over a socket bufferevent, operation %s: read and write timeout invariant + underlying read suspension mirrors the filter" % nm))
+        if tier == "thorough" or nm in quick_fout:
+            obs.append(dict(name="filter_out_" + nm, harness="C20_filter.c", entry="harness_filter_step", defines=["C20_OP=%d" % i, "C20_CHECK_WRITE", "C20_WITH_OUTPUT"],
+                            unwind=8, unwindset=UW, timeout=600, mem_gb=4, desc="filter, operation %s, output held back in the filter (underlying at its high write mark)" % nm))
     if tier == "thorough":
         for i, nm in ((4, "set_timeouts"), (8, "read_event"), (9, "write_event"), (10, "read_timeout")):
             obs.append(dict(name="sock_%s_ndebug" % nm, harness="C20_sock.c", entry="harness_sock_step", defines=["C20_OP=%d" % i], unwind=8, unwindset=UW,
